@@ -329,6 +329,22 @@ def run_config(mon: Monitor, cfg, workdir: str) -> None:
 
 _orders = set()
 
+
+def _guarded(mon: Monitor, cfg, workdir: str) -> None:
+    """A file the independent readers cannot even open or decode is a violation of the property, not a monitor error."""
+    try:
+        run_config(mon, cfg, workdir)
+    except Exception as e:  # noqa: BLE001
+        import traceback
+
+        tb = traceback.extract_tb(e.__traceback__)
+        reader = any(("rasterio" in f.filename or "tifffile" in f.filename or "imagecodecs" in f.filename) for f in tb)
+        if reader:
+            mon.fail("readers", {**cfg, "exc": e, "where": [f"{os.path.basename(f.filename)}:{f.name}" for f in tb][-4:]}, key="file-unreadable")
+        else:
+            mon.error("config", e)
+
+
 PINNED = [
     dict(ny=129, nx=100, layout="SYX", ns=2, dtype="int16", chunks=[32, 32], band_chunk=1, nodata=-9999, blocksize=[32, 16], compression="zstd", predictor=None, spill_sz=None, writes_per_chunk=None, stats=True, bigtiff=True, scheduler="threads", workers=4, order_seed=8, data_seed=8, crs="EPSG:3857", dest="s3"),
     # K4 (known finding): band-first cube, ns == ny == nx: both layouts match the GeoBox and the shape heuristic picks band-last although the DataArray dims say otherwise
@@ -354,17 +370,11 @@ def run(mon: Monitor, tier: str, seed: int, shard: int, nshards: int) -> None:
         if shard == 0:
             for cfg in PINNED:
                 mon.case = {"kind": "cfg", "cfg": cfg}
-                try:
-                    run_config(mon, cfg, workdir)
-                except Exception as e:
-                    mon.error("config", e)
+                _guarded(mon, cfg, workdir)
         for _ in range(95 if tier == "quick" else 600):
             cfg = make_config(random.Random(rng.getrandbits(48)))
             mon.case = {"kind": "cfg", "cfg": cfg}
-            try:
-                run_config(mon, cfg, workdir)
-            except Exception as e:
-                mon.error("config", e)
+            _guarded(mon, cfg, workdir)
         mon.case = None
         mon.obs["distinct_orders_sync"] = len({o for s, o in _orders if s == "sync"})
         mon.obs["distinct_orders_threads"] = len({o for s, o in _orders if s == "threads"})
@@ -382,7 +392,7 @@ def replay(mon: Monitor, case) -> None:
     workdir = tempfile.mkdtemp(prefix=f"c05-{os.getpid()}-", dir=str(WORK_DIR))
     try:
         mon.case = case
-        run_config(mon, case["cfg"], workdir)
+        _guarded(mon, case["cfg"], workdir)
     finally:
         detach_all()
         shutil.rmtree(workdir, ignore_errors=True)
